@@ -272,6 +272,77 @@ def run(ctx, build):
                     ctx.violation('fs.names/invalid-accepted', f'invalid name {name!r} through {how}: outcome {outcome}, image changed: {bytes(buf) != pre}',
                                   dict(fat_type=ft, name=name, how=how))
                     return
+            # 4. "." and ".." are references, not names: nothing may be created, removed or moved under them.
+            #    In the root (which holds no dot entries) every attempt must be a ValueError; in a sub-directory the
+            #    path denotes an existing directory, so IsADirectoryError / FileExistsError / 'not empty' are refusals too.
+            #    Whatever the outcome: no byte of the image changes.
+            victim = expected[next(iter(expected))][0]
+            for name in ('.', '..'):
+              for how in ('write_bytes', 'mkdir', 'mkdir-p', 'mkdir-p-below', 'touch', 'open-x', 'open-a', 'rename-onto', 'rename-dir-onto',
+                          'rmdir', 'rename-from', 'unlink'):
+                pre = bytes(buf)
+                p = base / name
+                try:
+                    if how == 'write_bytes':
+                        p.write_bytes(b'x')
+                    elif how == 'mkdir':
+                        p.mkdir()
+                    elif how == 'mkdir-p':
+                        p.mkdir(parents=True)
+                    elif how == 'mkdir-p-below':
+                        (base / 'no such dir' / name / 'leaf').mkdir(parents=True)
+                    elif how == 'touch':
+                        p.touch()
+                    elif how == 'open-x':
+                        p.open('xb').close()
+                    elif how == 'open-a':
+                        p.open('ab').close()
+                    elif how == 'rename-onto':
+                        (base / victim).rename(p)
+                    elif how == 'rename-dir-onto':
+                        (base / 'dots probe dir').mkdir()
+                        pre = bytes(buf)
+                        try:
+                            (base / 'dots probe dir').rename(p)
+                        finally:
+                            if bytes(buf) == pre:
+                                (base / 'dots probe dir').rmdir()
+                                pre = bytes(buf)
+                    elif how == 'rmdir':
+                        p.rmdir()
+                    elif how == 'rename-from':
+                        p.rename(base / 'moved away')
+                    else:
+                        p.unlink()
+                    outcome = 'done'
+                except ValueError:
+                    outcome = 'ValueError'
+                except Exception as e:
+                    outcome = type(e).__name__
+                ctx.case((ft, 'dot-name', name, how), True, 'dot-name-' + how)
+                if how == 'mkdir-p-below' and outcome == 'ValueError' and bytes(buf) != pre:
+                    # the missing parent may have been created before the refusal; it must be an ordinary empty directory
+                    probs = fatspec.spec_wf(R, bytes(buf))
+                    if not probs and [q.name for q in (base / 'no such dir').iterdir()] == []:
+                        (base / 'no such dir').rmdir()
+                        continue
+                allowed = {'ValueError'} if not in_subdir else {'ValueError', 'IsADirectoryError', 'FileExistsError', 'OSError', 'PermissionError'}
+                if how in ('touch', 'open-a') and in_subdir:
+                    allowed = allowed | {'done'}       # touching an existing directory changes nothing but its times
+                if how in ('unlink', 'rmdir', 'rename-from') and not in_subdir:
+                    allowed = {'FileNotFoundError', 'ValueError'}    # nothing of that name exists in the root
+                changed = bytes(buf) != pre
+                if outcome not in allowed or (changed and outcome != 'done'):
+                    ctx.violation('fs.names/dot-name-accepted', f'{name!r} as the final component through {how}: outcome {outcome}, image changed: {changed}',
+                                  dict(fat_type=ft, name=name, how=how, in_subdir=in_subdir))
+                    return
+                if changed:
+                    probs = fatspec.spec_wf(R, bytes(buf))
+                    listed = sorted(q.name for q in base.iterdir())
+                    if probs or listed != sorted(v[0] for v in expected.values()):
+                        ctx.violation('fs.names/dot-name-accepted', f'{name!r} as the final component through {how}: outcome {outcome}; afterwards {probs[:2]} '
+                                      f'listing changed: {listed != sorted(v[0] for v in expected.values())}', dict(fat_type=ft, name=name, how=how, in_subdir=in_subdir))
+                        return
         finally:
             try:
                 fs.close()
